@@ -67,7 +67,7 @@ def run(tier, seed):
         cases.append((data.hex(), ",".join(map(str, script)), "-"))
     # faults: a read error at each byte offset
     nf = 0
-    for data in list(seen)[:: (7 if tier == "quick" else 2)]:
+    for data in sorted(seen)[:: (7 if tier == "quick" else 2)]:
         for k in range(0, len(data) + 1):
             script = [rng.randint(1, 4) for _ in range(len(data) + 4)]
             cases.append((data.hex(), ",".join(map(str, script)), str(k)))
